@@ -5,4 +5,5 @@ Require Extraction.
 Require Import ExtrOcamlBasic.
 Extraction "model.ml"
   fs_solve fs_fluxes_ujk fs_fluxes_bonds fs_wf fs_pm1 fs_pairing_ok fs_path_ok fs_where_neg
-  fs_flip_adjacent fs_map2 fs_sign_real ground_state_ansatz.
+  fs_flip_adjacent fs_map2 fs_sign_real ground_state_ansatz
+  fs_greedy_run greedy_pairing fs_replay_pick fs_replay_nearest.
